@@ -168,6 +168,9 @@ def build_universe(seed, tier):
     st += [Sum('bnd', [un]), Sum('opt', [un]), Sum('cf', [un, un]), Sum('bnd', [Phantom(Prim('u8'))]), Sum('bnd', [Array(Prim('u64'), 0)]),
            Adt(byname['KD5'], [Sum('bnd', [un])], []), Seq('vec', Sum('bnd', [un])), Sum('opt', [Sum('bnd', [un])])]
     st += [wit(), Seq('vec', wit()), Adt(byname['KD5'], [Seq('vec', wit())], []), Adt(byname['KRC1'], [], []), Seq('vec', Adt(byname['KRC2'], [], []))]
+    # round 9: vectors of zero-sized sums (every item carries a tag), alone and followed by data
+    s1, s2 = Adt(byname['KSV1'], [], []), Adt(byname['KSV2'], [], [])
+    st += [Seq('vec', s1), Seq('bs', s2), Adt(byname['KD5'], [Seq('vec', s1)], []), Array(s1, 3)]
     # round 6: twins (same identifier and same `type_name`, different definitions), used one after the other in one process
     tw = twin_defs('K')
     sd = sd + tw
